@@ -121,6 +121,48 @@ def part(run: Run, rng, cfg: str, tier: str, deadline: float, first_id: int) -> 
     return info
 
 
+def starttls_pipelining(run) -> None:
+    """Conn.tla: LOGIN (and AUTHENTICATE PLAIN) change `auth` only in a state in which the
+    mechanism is offered, i.e. - remote peer, TLS configured - only after STARTTLS.  What the
+    client sent in plain text BEHIND the STARTTLS line (one segment) was not sent inside TLS:
+    it must not authenticate anybody."""
+    import base64
+    from ..server import World
+    cred = base64.b64encode(b'\x00user1\x00pass1')
+    cases = {
+        'imap LOGIN': ('imap', b'a1 STARTTLS\r\na2 LOGIN user1 pass1\r\n', b'a3 LIST "" *\r\n'),
+        'imap AUTHENTICATE PLAIN': ('imap', b'a1 STARTTLS\r\na2 AUTHENTICATE PLAIN ' + cred + b'\r\n',
+                                    b'a3 LIST "" *\r\n'),
+        'sieve AUTHENTICATE PLAIN': ('sieve', b'STARTTLS\r\nAUTHENTICATE "PLAIN" "' + cred + b'"\r\n',
+                                     b'LISTSCRIPTS\r\n'),
+    }
+    for name, (service, blob, probe) in cases.items():
+        w = World('dict', demo=False, users=cc.USERS, tls=True,
+                  config_kw={'bad_command_limit': None})
+        try:
+            cc.provision(w)
+            c = w.connect('a', local=False, service=service)
+            greeting = c.take()
+            w.send('a', blob)                    # ONE plain-text segment
+            w.run_to_completion('a')
+            out = c.take()
+            w.send('a', probe)
+            w.run_to_completion('a')
+            shown = c.take()
+            run.count_exec(('starttls-pipelining', name), nontrivial=True)
+            st = c.state
+            authed = (st is not None and getattr(st, '_session', None) is not None) \
+                or b'marker_' in shown
+            if authed:
+                run.violation(
+                    f'{name}: sent in plain text behind STARTTLS in one segment, executed after '
+                    f'the handshake: {out[-160:]!r}; then {probe!r} -> {shown[-120:]!r} '
+                    f'(greeting {greeting[:80]!r})',
+                    {'check': 'C09', 'part': 'starttls-pipelining', 'case': name}, None)
+        finally:
+            w.close()
+
+
 def main(tier: str) -> int:
     run = Run('C09', tier)
     rng = random.Random(run.seed)
@@ -151,6 +193,7 @@ def main(tier: str) -> int:
     if sieve is None:
         return run.finish()
     run.notes['sieve'] = sieve
+    starttls_pipelining(run)
     unc = imap['tour']['uncovered']
     run.cov['exhaustive'] = unc == 0
     run.notes['exhaustive_scope'] = (
